@@ -42,24 +42,24 @@ MEAN = {
 from . import special as _sp
 
 PROPS = {
-    'C01': dict(streams=[('single-item', 80, 3000)]),
-    'C02': dict(streams=[('query', 80, 3000)]),
-    'C03': dict(streams=[('index', 80, 3000)]),
-    'C04': dict(streams=[('page', 60, 2000)]),
-    'C05': dict(streams=[('conditional', 80, 3000)]),
-    'C06': dict(streams=[('expr', 2000, 150000)]),
-    'C07': dict(streams=[('update', 2000, 150000)]),
-    'C08': dict(streams=[('failing', 80, 3000)]),
-    'C09': dict(streams=[('malformed', 2000, 150000), ('expr', 1200, 50000), ('update', 600, 30000), ('conditional', 40, 1500), ('lazy', 40, 1500)]),
-    'C10': dict(streams=[('values', 80, 3000)]),
-    'C12': dict(streams=[('numbers', 3000, 200000), ('update', 1200, 50000), ('numkeys', 40, 2000)]),
-    'C13': dict(streams=[('keys', 80, 3000)]),
-    'C15': dict(streams=[('faults', 80, 3000)]),
-    'C16': dict(streams=[('restrictions', 80, 3000)]),
-    'C17': dict(streams=[('mixed', 30, 2000), ('batch', 60, 2000)], special=_sp.twin_clients),
-    'C18': dict(streams=[('lifecycle', 60, 2000)]),
-    'C19': dict(streams=[('batch', 80, 3000)]),
-    'C20': dict(streams=[('native', 80, 3000)]),
+    'C01': dict(streams=[('single-item', 200, 3000)]),
+    'C02': dict(streams=[('query', 200, 3000)]),
+    'C03': dict(streams=[('index', 200, 3000)]),
+    'C04': dict(streams=[('page', 150, 2000)]),
+    'C05': dict(streams=[('conditional', 200, 3000)]),
+    'C06': dict(streams=[('expr', 5000, 150000)]),
+    'C07': dict(streams=[('update', 5000, 150000)]),
+    'C08': dict(streams=[('failing', 200, 3000)]),
+    'C09': dict(streams=[('malformed', 2000, 150000), ('expr', 1200, 50000), ('update', 600, 30000), ('conditional', 60, 1500), ('lazy', 80, 1500)]),
+    'C10': dict(streams=[('values', 200, 3000)]),
+    'C12': dict(streams=[('numbers', 3000, 200000), ('update', 1200, 50000), ('numkeys', 120, 2000)]),
+    'C13': dict(streams=[('keys', 200, 3000)]),
+    'C15': dict(streams=[('faults', 200, 3000)]),
+    'C16': dict(streams=[('restrictions', 200, 3000)]),
+    'C17': dict(streams=[('mixed', 60, 2000), ('batch', 100, 2000)], special=_sp.twin_clients),
+    'C18': dict(streams=[('lifecycle', 120, 2000)]),
+    'C19': dict(streams=[('batch', 200, 3000)]),
+    'C20': dict(streams=[('native', 250, 3000)]),
     'C11': dict(streams=[], special=_sp.race_stress),
     'C14': dict(streams=[], special=_sp.poke_matrix),
 }
